@@ -121,6 +121,19 @@ def scan_invalidation():
       elif re.search(r"=\s*FindOrAddOrigin\(node\);", ctx.split("{")[-1]) and "InvalidateSolver" not in ctx.split("}")[-1]:
         # inside Binding::AddOrigin itself: covered by the t_add_origin_* entries
         pass
+  # Program::InvalidateSolver / GetSolver themselves: the model's `solver := None` / `fresh solver on demand` reading
+  # is only right for exactly these bodies (whitespace-insensitive); anything else fails closed
+  squeeze = lambda b: re.sub(r"\s+", "", b or "")
+  inv_body = squeeze(find("Program::InvalidateSolver", r""))
+  if inv_body != "if(solver_){solver_metrics_.push_back(solver_->CalculateMetrics());}solver_.reset();":
+    problems.append("Program::InvalidateSolver is not `if (solver_) {record metrics} solver_.reset();`: " + inv_body[:200])
+  get_body = squeeze(find("Program::GetSolver", r""))
+  if get_body != "if(solver_==nullptr)solver_=std::make_unique<Solver>(this);returnsolver_.get();":
+    problems.append("Program::GetSolver is not `create if null; return solver_.get()`: " + get_body[:200])
+  other_solver_writers = sorted({n for n, a, b in funcs if re.search(r"\bsolver_\s*(=[^=]|\.reset|\.release|\.swap)", b)}
+                                - {"Program::InvalidateSolver", "Program::GetSolver"})
+  if other_solver_writers:
+    problems.append(f"unexpected writers of Program::solver_: {other_solver_writers}")
   # set_condition must be the only way cfg.cc changes a condition
   if re.search(r"(?:->|\.)condition_\b", cfgcc):
     problems.append("cfg.cc touches condition_ directly")
@@ -433,6 +446,41 @@ def gen_deep_history(r, depth, sat):
   return h
 
 
+def generations_leg(n_gen, n_final):
+  """One long-lived Program through `n_gen` solver generations (mutation, query, mutation, query, ...) - more than any
+  fixed-size history buffer - then `n_final` rounds of query / answer-changing mutation / same query, each compared
+  with a replica rebuilt from scratch.  Also monitors that every mutation after a query starts a new solver
+  generation (solver-metrics count).  Returns (stale list, generations expected, generations observed, history)."""
+  real = Real()
+  h = []
+  def op(x):
+    real.do(x); h.append(("op", x))
+  op(("NewNode", None)); op(("NewVariable",))
+  last = 0
+  expected_gen = 0
+  for i in range(n_gen):
+    op(("ConnectNew", last, None)); last = len(real.nodes) - 1
+    op(("AddBindingAt", 0, i % 3, [], last))
+    real.ask(("Filter", last, 0))                 # a solver is alive now
+    expected_gen += 1
+  observed_gen = real.n_solvers()
+  stale = []
+  for j in range(n_final):
+    op(("ConnectNew", last, None)); last = len(real.nodes) - 1
+    op(("AddBindingAt", 0, j % 3, [], last))
+    ba = [i for i, b in enumerate(real.binds) if b.data == real.d(j % 3)][0]
+    qs = [("Vis", last, [ba]), ("Filter", last, 0)]
+    for q in qs:
+      real.ask(q)
+    op(("AddBindingAt", 0, (j + 1) % 3, [], last))   # changes what is visible at `last`
+    ops_only = [x for k, x in h if k == "op"]
+    for q in qs:
+      a, b = real.ask(q), replica_answer(ops_only, q)
+      if a != b:
+        stale.append((list(h), q, a, b))
+  return stale, expected_gen, observed_gen, h
+
+
 def replica_answer(ops, q):
   rp = Real()
   for op in ops:
@@ -662,6 +710,20 @@ def run(res):
       res.violation(f"stale-answer-after:{last_op}",
                     f"query {q} answered {a} by the long-lived program but {b} by a freshly built replica",
                     {"history": small, "query": q, "long_lived": a, "replica": b})
+  # (a') many solver generations on one program
+  n_gen = 6000 if thorough else 1300
+  g_stale, g_exp, g_obs, g_hist = generations_leg(n_gen, 6)
+  res.count(("generations", n_gen))
+  res.extra["generations_leg"] = {"solver_generations_expected_at_least": g_exp, "observed": g_obs, "stale": len(g_stale)}
+  res.obligation("monitor:every mutation after a query starts a new solver generation (%d generations)" % n_gen,
+                 g_obs >= g_exp, f"expected >= {g_exp} solver generations, the program's metrics show {g_obs}")
+  for hist, q, a, b in g_stale[:1]:
+    n_stale += 1
+    res.violation("stale-answer-after-many-generations",
+                  f"after {n_gen} solver generations on one program: query {q} answered {a} by the long-lived program "
+                  f"but {b} by a freshly built replica",
+                  {"history": hist, "query": q, "long_lived": a, "replica": b,
+                   "note": "history = [kind, x] entries; only the 'op' entries were executed (queries of the warm-up are ('Filter', node, 0) after every AddBindingAt)"})
   res.obligation("oracle:long-lived==replica at every query", n_stale == 0, f"{n_stale} stale answers")
   # (b) model correspondence
   model, errors = model_cases(cases)
